@@ -67,6 +67,8 @@ Theorem edit_selectable_iff_child f id e h h' n :
      n_selc n' = existsb (sel f h') (items n')).
 Proof.
   intros G Hk. unfold edit, mbind, rd. rewrite G.
+  assert (Hsw : is_simple_walker n = false) by (unfold is_simple_walker; destruct Hk as [Hk|Hk]; rewrite Hk; reflexivity).
+  rewrite Hsw.
   destruct (MonitoredList.o_err (snd (MonitoredList.step (n_c n) e))); [discriminate|].
   set (s' := fst (MonitoredList.step (n_c n) e)).
   unfold w_contents, w_node at 1. rewrite G.
